@@ -467,3 +467,162 @@ pub fn random_still(rng: &mut Rng, max_dim: u32) -> Still {
     let split = random_split(rng, 1000);
     Still { img, interlace, filters, deflater, split }
 }
+
+/// One animation frame (or the default image): rectangle + pixels
+#[derive(Clone, Debug)]
+pub struct AnimFrame {
+    pub x: u32,
+    pub y: u32,
+    pub img: Img,
+    pub delay: (u16, u16),
+    pub dispose: u8,
+    pub blend: u8,
+    pub filters: Filters,
+    pub deflater: Deflater,
+    pub split: Split,
+}
+
+#[derive(Clone, Debug)]
+pub struct Anim {
+    pub color: u8,
+    pub depth: u8,
+    pub w: u32,
+    pub h: u32,
+    pub interlace: bool,
+    pub plays: u32,
+    /// None: the IDAT image is the first animation frame; Some(img): separate default image (canvas size)
+    pub default_image: Option<AnimFrame>,
+    pub frames: Vec<AnimFrame>,
+}
+
+/// what successive `next_frame` calls are expected to deliver
+#[derive(Clone, Debug)]
+pub struct ExpectedFrame {
+    pub fc: Option<Fctl>,
+    pub w: u32,
+    pub h: u32,
+    pub pixels: Vec<u8>,
+}
+
+pub fn anim_chunks(a: &Anim, rng: &mut Rng) -> (Vec<RawChunk>, Vec<ExpectedFrame>) {
+    let mut cs = vec![ihdr(a.w, a.h, a.depth, a.color, a.interlace as u8), actl(a.frames.len() as u32, a.plays)];
+    if a.color == 3 {
+        cs.push(random_palette(rng, 1usize << a.depth.min(8)));
+    }
+    let mut exp = vec![];
+    let mut seq = 0u32;
+    let mut first_data = true;
+    let mut emit = |f: &AnimFrame, with_fc: bool, cs: &mut Vec<RawChunk>, exp: &mut Vec<ExpectedFrame>, seq: &mut u32, rng: &mut Rng, first_data: &mut bool| {
+        let fc = if with_fc {
+            let fc = Fctl { seq: *seq, w: f.img.w, h: f.img.h, x: f.x, y: f.y, delay_num: f.delay.0, delay_den: f.delay.1, dispose: f.dispose, blend: f.blend };
+            *seq += 1;
+            cs.push(fc.chunk());
+            Some(fc)
+        } else {
+            None
+        };
+        let (raw, _) = scanlines(&f.img, a.interlace, &f.filters, rng);
+        let z = zlib_stream(&raw, &f.deflater);
+        for piece in split(&z, &f.split, rng) {
+            if *first_data {
+                cs.push(RawChunk::new(b"IDAT", piece));
+            } else {
+                let mut d = seq.to_be_bytes().to_vec();
+                *seq += 1;
+                d.extend_from_slice(&piece);
+                cs.push(RawChunk::new(b"fdAT", d));
+            }
+        }
+        *first_data = false;
+        exp.push(ExpectedFrame { fc, w: f.img.w, h: f.img.h, pixels: f.img.pixels.clone() });
+    };
+    if let Some(d) = &a.default_image {
+        emit(d, false, &mut cs, &mut exp, &mut seq, rng, &mut first_data);
+    }
+    for f in &a.frames {
+        emit(f, true, &mut cs, &mut exp, &mut seq, rng, &mut first_data);
+    }
+    cs.push(RawChunk::new(b"IEND", vec![]));
+    (cs, exp)
+}
+
+pub fn random_anim(rng: &mut Rng, max_dim: u32, max_frames: usize) -> Anim {
+    let (color, depth) = *rng.pick(&LEGAL_PAIRS);
+    let w = rng.range(1, max_dim as u64) as u32;
+    let h = rng.range(1, max_dim as u64) as u32;
+    let interlace = rng.chance(1, 3);
+    let mk = |rng: &mut Rng, full: bool| -> AnimFrame {
+        let (fw, fh, x, y) = if full {
+            (w, h, 0, 0)
+        } else {
+            let fw = rng.range(1, w as u64) as u32;
+            let fh = rng.range(1, h as u64) as u32;
+            (fw, fh, rng.range(0, (w - fw) as u64) as u32, rng.range(0, (h - fh) as u64) as u32)
+        };
+        AnimFrame {
+            x, y,
+            img: Img::random(rng, color, depth, fw, fh),
+            delay: (rng.below(100) as u16, rng.below(100) as u16),
+            dispose: rng.below(3) as u8,
+            blend: rng.below(2) as u8,
+            filters: Filters::Random,
+            deflater: random_deflater(rng),
+            split: match rng.below(4) { 0 => Split::One, 1 => Split::Fixed(rng.usize(1, 9)), 2 => Split::Random(rng.usize(1, 4)), _ => Split::Fixed(1) },
+        }
+    };
+    let separate_default = rng.chance(1, 3);
+    let default_image = if separate_default { Some(mk(rng, true)) } else { None };
+    let n = rng.usize(1, max_frames);
+    let mut frames = vec![];
+    for k in 0..n {
+        // the IDAT frame of an animation must cover the canvas
+        let full = (k == 0 && !separate_default) || rng.chance(1, 3);
+        frames.push(mk(rng, full));
+    }
+    Anim { color, depth, w, h, interlace, plays: rng.below(3) as u32, default_image, frames }
+}
+
+/// ancillary chunks with valid contents for decorating files (position: before IDAT)
+pub fn random_ancillary(rng: &mut Rng, color: u8, depth: u8) -> Vec<RawChunk> {
+    let mut v = vec![];
+    if rng.chance(1, 2) {
+        v.push(RawChunk::new(b"gAMA", (rng.next() as u32).to_be_bytes().to_vec()));
+    }
+    if rng.chance(1, 3) {
+        let mut d = vec![];
+        for _ in 0..8 {
+            d.extend_from_slice(&(rng.next() as u32).to_be_bytes());
+        }
+        v.push(RawChunk::new(b"cHRM", d));
+    }
+    if rng.chance(1, 3) {
+        let mut d = (rng.next() as u32).to_be_bytes().to_vec();
+        d.extend_from_slice(&(rng.next() as u32).to_be_bytes());
+        d.push(rng.below(2) as u8);
+        v.push(RawChunk::new(b"pHYs", d));
+    }
+    if rng.chance(1, 4) {
+        v.push(RawChunk::new(b"sRGB", vec![rng.below(4) as u8]));
+    }
+    if rng.chance(1, 3) {
+        let mut d = b"Title".to_vec();
+        d.push(0);
+        let n = rng.usize(0, 20);
+        d.extend(rng.bytes(n).into_iter().map(|b| b.max(1)));
+        v.push(RawChunk::new(b"tEXt", d));
+    }
+    if rng.chance(1, 4) {
+        let n = rng.usize(1, 30);
+        v.push(RawChunk::new(b"eXIf", rng.bytes(n)));
+    }
+    if rng.chance(1, 4) {
+        let n = rng.usize(0, 40);
+        v.push(RawChunk::new(b"prVt", rng.bytes(n)));
+    }
+    if rng.chance(1, 5) && (color == 0 || color == 2) {
+        let n = if color == 0 { 2 } else { 6 };
+        let d: Vec<u8> = (0..n).map(|i| if i % 2 == 0 && depth < 16 { 0 } else { rng.byte() }).collect();
+        v.push(RawChunk::new(b"tRNS", d));
+    }
+    v
+}
